@@ -69,7 +69,24 @@ pub fn policy(l: L, lang: &text2num::Language, toks: &[HTok], r: &[Occ], t: f64,
     out
 }
 
+/// Boundary thresholds: each value the small alphabet can produce, its two neighbouring doubles, and the
+/// extremes of the double range (a threshold is compared as given, never rounded or truncated).
+pub fn boundary_thresholds() -> Vec<f64> {
+    let mut v: Vec<f64> = vec![f64::NEG_INFINITY, -f64::MAX, -1e-60, -0.0, f64::MIN_POSITIVE, 1e-60, 0.5, 2.5, 100000001.0, 9007199254740993.0, f64::MAX, f64::INFINITY];
+    for x in [0.0f64, 1.0, 3.0, 5.0, 9.0, 20.0] {
+        v.extend([x.next_down(), x, x.next_up()]);
+    }
+    v.sort_by(|a, b| a.partial_cmp(b).unwrap());
+    v.dedup_by(|a, b| a.to_bits() == b.to_bits());
+    v.push(f64::NAN);
+    v
+}
+
 fn one_stream(ctx: &Ctx, acc: &mut Acc, l: L, lang: &text2num::Language, syms: &[&str]) {
+    one_stream_t(ctx, acc, l, lang, syms, &T)
+}
+
+fn one_stream_t(ctx: &Ctx, acc: &mut Acc, l: L, lang: &text2num::Language, syms: &[&str], thrs: &[f64]) {
     acc.states += 1;
     let toks: Vec<HTok> = syms.iter().enumerate().map(|(i, w)| HTok::decorated(i, w)).collect();
     let base = match guard(|| stream::find(&toks, lang, 0.0)) {
@@ -83,7 +100,7 @@ fn one_stream(ctx: &Ctx, acc: &mut Acc, l: L, lang: &text2num::Language, syms: &
         acc.nontrivial += 1;
     }
     let mut prev: Option<(f64, Vec<Occ>)> = None;
-    for &t in &T {
+    for &t in thrs {
         acc.transitions += toks.len() as u64;
         acc.traces += 1;
         let got = match guard(|| stream::find(&toks, lang, t)) {
@@ -156,6 +173,7 @@ pub fn run(tier: Tier) -> i32 {
     let (n1, k1, n2, k2) = tier.pick((25usize, 4usize, 11usize, 6usize), (25, 5, 11, 7));
     let mut total = Acc::new();
     let mut alphas = vec![];
+    let bt = boundary_thresholds();
     for l in langs::ALL {
         let lang = l.facade();
         let a1 = alphabet(l, n1);
@@ -167,6 +185,10 @@ pub fn run(tier: Tier) -> i32 {
                 one_stream(&ctx, acc, l, &lang, syms)
             }
         }));
+        // boundary thresholds on short streams of small numbers
+        let c = vocab::cls(l);
+        let a3: Vec<String> = vec![c.one, c.unit, c.unit2, c.zero, c.small_ord, c.large_ord, c.tens, c.ordinary, ",".to_string()];
+        total.merge(explore::all_sequences2(&a3, 4, |syms, acc| one_stream_t(&ctx, acc, l, &lang, syms, &bt)));
         total.sample(json!({"lang": l.code(), "stream": a1.iter().take(5).collect::<Vec<_>>()}));
     }
     let cov = json!({
@@ -174,6 +196,7 @@ pub fn run(tier: Tier) -> i32 {
         "rule": "every token stream of length <= k over the class alphabet x every threshold of T; result compared with the policy model computed from the threshold-0 result; monotonicity checked over consecutive thresholds; non-trivial = streams with at least one number",
         "bounds": {"wide_alphabet": n1, "wide_depth": k1, "deep_alphabet": n2, "deep_depth": k2},
         "thresholds": T.iter().map(|t| thr_name(*t)).collect::<Vec<_>>(),
+        "boundary_stage": {"alphabet": "one, unit, unit2, zero, small ordinal, large ordinal, tens, ordinary word, comma", "depth": 4, "thresholds": bt.iter().map(|t| if t.is_finite() { format!("{t:e}") } else { thr_name(*t) }).collect::<Vec<_>>()},
         "alphabets": alphas,
     });
     ctx.finish(total, cov, vec![
